@@ -66,6 +66,14 @@ pub struct EnvLog {
     pub calls: u64,
     pub stream_polls: u64,
     pub stalled: bool,
+    /// What each stream would hand out if it were polled now: call -> (kind, n).
+    pub nexts: std::collections::BTreeMap<u64, (String, u64)>,
+}
+
+impl EnvLog {
+    pub fn nexts_json(&self) -> Value {
+        Value::Array(self.nexts.iter().map(|(c, (k, n))| json!({"call": c, "k": k, "n": n})).collect())
+    }
 }
 
 pub struct ScriptedEntity {
@@ -142,6 +150,57 @@ struct ScriptedStream {
 /// (returns Pending without waking) instead and the harness stops polling.
 const MAX_HONEST: u64 = 1 << 24;
 
+impl ScriptedStream {
+    /// The next item (kind, n, taken from the item list?, is it the one extra byte?) -- pure.
+    fn decide(&self) -> (char, u64, bool, bool) {
+        if self.next_item < self.script.items.len() {
+            let it = self.script.items[self.next_item];
+            return (it.0, it.1, true, false);
+        }
+        let owed = self.end.saturating_sub(self.pos);
+        match self.script.tail.as_str() {
+            "honest" | "extra" => {
+                if owed > 0 {
+                    if self.end - self.pos > MAX_HONEST {
+                        ('s', 0, false, false)
+                    } else {
+                        // at most ~6 chunks per stream whatever the configured chunk size
+                        let total = self.end - self.start;
+                        ('y', owed.min(self.script.chunk.max(total / 6 + (total % 6 != 0) as u64)), false, false)
+                    }
+                } else if self.script.tail == "extra" && !self.extra_done {
+                    ('y', 1, false, true)
+                } else {
+                    ('e', 0, false, false)
+                }
+            }
+            "fail" => ('f', 0, false, false),
+            "stall" => ('s', 0, false, false),
+            _ => ('e', 0, false, false),
+        }
+    }
+
+    fn kind_name(k: char) -> &'static str {
+        match k {
+            'y' => "yield",
+            'p' => "pending",
+            's' => "stall",
+            'f' => "fail",
+            _ => "end",
+        }
+    }
+
+    fn publish_next(&self, l: &mut EnvLog) {
+        let nx = if self.finished {
+            ("done".to_string(), 0)
+        } else {
+            let (k, n, _, _) = self.decide();
+            (Self::kind_name(k).to_string(), n)
+        };
+        l.nexts.insert(self.call, nx);
+    }
+}
+
 impl Stream for ScriptedStream {
     type Item = Result<Bytes, BoxError>;
 
@@ -157,44 +216,25 @@ impl Stream for ScriptedStream {
             ev(&mut l, "done", 0);
             return Poll::Ready(None);
         }
-        let (k, n) = if this.next_item < this.script.items.len() {
-            let it = this.script.items[this.next_item];
+        let (k, n, from_items, extra_now) = this.decide();
+        if from_items {
             this.next_item += 1;
-            it
-        } else {
-            let owed = this.end.saturating_sub(this.pos);
-            match this.script.tail.as_str() {
-                "honest" | "extra" => {
-                    if owed > 0 {
-                        if this.end - this.pos > MAX_HONEST {
-                            ('s', 0)
-                        } else {
-                            // at most ~6 chunks per stream whatever the configured chunk size
-                            let total = this.end - this.start;
-                            ('y', owed.min(this.script.chunk.max(total / 6 + (total % 6 != 0) as u64)))
-                        }
-                    } else if this.script.tail == "extra" && !this.extra_done {
-                        this.extra_done = true;
-                        ('y', 1)
-                    } else {
-                        ('e', 0)
-                    }
-                }
-                "fail" => ('f', 0),
-                "stall" => ('s', 0),
-                _ => ('e', 0),
-            }
-        };
+        }
+        if extra_now {
+            this.extra_done = true;
+        }
         match k {
             'y' => {
                 let n = n.min(MAX_HONEST);
                 let d = content(this.pos, n as usize);
                 this.pos = this.pos.wrapping_add(n);
                 ev(&mut l, "yield", n);
+                this.publish_next(&mut l);
                 Poll::Ready(Some(Ok(Bytes::from(d))))
             }
             'p' => {
                 ev(&mut l, "pending", 0);
+                this.publish_next(&mut l);
                 cx.waker().wake_by_ref();
                 Poll::Pending
             }
@@ -206,11 +246,13 @@ impl Stream for ScriptedStream {
             'f' => {
                 this.finished = true;
                 ev(&mut l, "fail", 0);
+                this.publish_next(&mut l);
                 Poll::Ready(Some(Err("scripted entity failure".into())))
             }
             _ => {
                 this.finished = true;
                 ev(&mut l, "end", 0);
+                this.publish_next(&mut l);
                 Poll::Ready(None)
             }
         }
@@ -238,7 +280,7 @@ impl http_serve::Entity for ScriptedEntity {
             .get((call - 1) as usize)
             .cloned()
             .unwrap_or_else(|| self.dscript.clone());
-        Box::pin(ScriptedStream {
+        let st = ScriptedStream {
             call,
             start: range.start,
             pos: range.start,
@@ -248,7 +290,10 @@ impl http_serve::Entity for ScriptedEntity {
             finished: false,
             extra_done: false,
             log: self.log.clone(),
-        })
+        };
+        st.publish_next(&mut l);
+        drop(l);
+        Box::pin(st)
     }
 
     fn add_headers(&self, h: &mut HeaderMap) {
